@@ -607,7 +607,29 @@ pub fn one_case(ctx: &Ctx, case: u64, l: &mut Local) {
                 let h = api::holder_new(&t, fmt);
                 p.judge("SDJWTHolder::new", &h, &input);
                 if let Outcome::Ok(mut h) = h {
-                    let sel = if r.chance(50) { gen::select_all(&payload) } else { rand_json(&mut r, 3) };
+                    let sel = match r.below(3) {
+                        0 => gen::select_all(&payload),
+                        1 => rand_json(&mut r, 3),
+                        _ => {
+                            // name every member the DISCLOSURES claim to carry (reserved names included),
+                            // at the top level and below every top-level member
+                            let mut names = serde_json::Map::new();
+                            for d in &discs {
+                                if let Some(n) = model::b64d(d).ok().and_then(|b| serde_json::from_slice::<Value>(&b).ok()).and_then(|v| v.get(1).and_then(Value::as_str).map(String::from)) {
+                                    names.insert(n, if r.chance(70) { json!(true) } else { rand_json(&mut r, 1) });
+                                }
+                            }
+                            let mut top = names.clone();
+                            if let Some(o) = payload.as_object() {
+                                for (k, v) in o {
+                                    if v.is_object() && r.chance(60) {
+                                        top.insert(k.clone(), Value::Object(names.clone()));
+                                    }
+                                }
+                            }
+                            Value::Object(top)
+                        }
+                    };
                     let o = api::present(&mut h, &sel, None);
                     p.judge("create_presentation", &o, &|| json!({"holder_input": input(), "selection": sel}));
                 }
@@ -682,7 +704,9 @@ pub fn one_case(ctx: &Ctx, case: u64, l: &mut Local) {
                 let gjwt = api::sign_payload(Alg::ES256, 0, &good_payload, None);
                 let full = json!({"aud": "aud", "nonce": "n", "iat": api::now(), "sd_hash": model::digest_of(&format!("{gjwt}~"))});
                 for member in ["aud", "nonce", "iat", "sd_hash"] {
-                    for repl in [None, Some(json!(null)), Some(json!(5)), Some(json!(["x"])), Some(json!({"a": 1})), Some(json!(u64::MAX)), Some(json!(i64::MAX)), Some(json!(i64::MIN)), Some(json!(-1)), Some(json!(1.0e308)), Some(json!(9_007_199_254_740_993u64)), Some(json!(0)), Some(json!(""))] {
+                    for repl in [None, Some(json!(null)), Some(json!(5)), Some(json!(["x"])), Some(json!({"a": 1})), Some(json!(u64::MAX)), Some(json!(i64::MAX)), Some(json!(i64::MIN)), Some(json!(-1)), Some(json!(1.0e308)), Some(json!(9_007_199_254_740_993u64)), Some(json!(0)), Some(json!("")),
+                        // strings with as many CHARACTERS as a digest (43) but more bytes, and other non-ASCII
+                        Some(json!(format!("{}\u{e9}", "A".repeat(42)))), Some(json!("\u{1f600}".repeat(43))), Some(json!(format!("\u{e9}{}", "A".repeat(42)))), Some(json!("\u{0}".repeat(43))), Some(json!("A".repeat(44))), Some(json!("A".repeat(42)))] {
                         let mut pl = full.clone();
                         match &repl {
                             None => {
@@ -696,6 +720,22 @@ pub fn one_case(ctx: &Ctx, case: u64, l: &mut Local) {
                             let v = api::verify(&t, &Resolver::Fixed(Alg::ES256, 0), Some(("aud", "n")), fmt);
                             p.judge("SDJWTVerifier::new(kb)", &v.out, &|| json!({"kb_payload": pl, "format": fmt.name(), "note": "valid KB-JWT with one member removed / retyped"}));
                         }
+                    }
+                }
+            }
+            // systematically: an otherwise fully valid KB-JWT whose header typ is any short / long /
+            // non-ASCII string (byte offsets 11..13 falling inside a multi-byte character)
+            if (case / 9) % 3 == 1 {
+                let good_payload = json!({"iss": "https://issuer.example/A", "exp": api::now() + 3600, "cnf": {"jwk": keys::holder_jwk_json(Alg::ES256, 0)}, "a": 1});
+                let gjwt = api::sign_payload(Alg::ES256, 0, &good_payload, None);
+                let full = json!({"aud": "aud", "nonce": "n", "iat": api::now(), "sd_hash": model::digest_of(&format!("{gjwt}~"))});
+                for typ in ["application\u{e9}kb+jwt", "applicatio\u{e9}/kb+jwt", "applicati\u{1f600}kb+jwt", "application/\u{e9}", "APPLICATION/KB+JWT", "application/", "application/kb+jwt", "\u{e9}", "kb+jw\u{e9}", "kb+jwt\u{0}", "kb\u{1f600}", "", "applicationkb+jwt\u{e9}\u{e9}\u{e9}", "kb+jwt kb+jwt"] {
+                    let hdr = json!({"alg": "ES256", "typ": typ});
+                    let kbj = api::sign_raw(&hdr, &full, jsonwebtoken::Algorithm::ES256, &keys::holder_enc(Alg::ES256, 0));
+                    let parts = Parts { jwt: gjwt.clone(), disclosures: vec![], kb: Some(kbj) };
+                    if let Some(t) = parts.encode(fmt, 0) {
+                        let v = api::verify(&t, &Resolver::Fixed(Alg::ES256, 0), Some(("aud", "n")), fmt);
+                        p.judge("SDJWTVerifier::new(kb)", &v.out, &|| json!({"kb_header": hdr, "format": fmt.name(), "note": "valid KB-JWT, only typ unusual"}));
                     }
                 }
             }
